@@ -118,4 +118,25 @@ CHECKS = {
         trusted_base=TB,
         assumptions=[],
     ),
+    "C06": dict(
+        packs=["c06"], level="other",
+        explanation="R06.1 complete inside/outside split tables over StrokeAlignment (outside + inside = width, larger half inside), R06.2 fill_area/stroke_area offsets (solid: -inside / +outside, non-solid fill: 0) and Styled forwards, "
+                    "R06.3 segment/colour pairing: draw path (draw_stroke, draw_stroke_and_fill) and pixel path (three StyledPixelsIterator::next) assign the same colour role to the same scanline segment, segment accessors span the documented ranges, "
+                    "R06.4 both renderers of rectangle/circle/ellipse/rounded rectangle take their areas from style.stroke_area/fill_area of the unmodified primitive.",
+        claim="Decides the split tables (the statement's own wording) and the structural agreement of the two renderers with fill_area()/stroke_area(); that the scanline generators realise exactly contains() of those areas, and the rectangle's four-border arithmetic, are not decided.",
+        note="Necessary conditions; fail closed on unrecognised idioms.",
+        technique="decision-table extraction + origin-tree wiring comparison over MIR",
+        trusted_base=TB,
+        assumptions=[],
+    ),
+    "C01": dict(
+        packs=["c01"], level="other",
+        explanation="Renderer-agreement rules over MIR: R01.1 segment/colour pairing of the draw path and the three pixel paths, triangle colour-by-type tables in new/next/draw_styled; R01.2 both renderers of all nine primitives are fed the same geometry by role (areas of the unmodified primitive, identical ScanlineIterator arguments, draw = draw_iter(pixels iterator) for line/arc/sector, polyline translate handling); "
+                    "R01.3/R03.6 the trait defaults and every native fill_contiguous pair the caller's colour stream with the caller's area; R14.3 font target colour roles equal between fill_contiguous and fill_solid; R01.4 scanline -> 1px rectangle; R01.5 image draw wiring.",
+        claim="Decides that the alternative drawing paths are wired to the same generators, geometry inputs and colour roles; pixel-map equality itself (scanline/rectangle arithmetic, thin corners, collapsed fills) is not decided.",
+        note="Necessary conditions; fail closed on unrecognised idioms.",
+        technique="sibling-implementation agreement via origin-tree comparison and decision tables over MIR",
+        trusted_base=TB,
+        assumptions=[],
+    ),
 }
